@@ -106,16 +106,21 @@ pub(crate) fn unbond(
             BOND.save(deps.storage, (&info.sender, &denom), &unbond)?;
         }
 
-        // record the unbonding
-        UNBOND.save(
-            deps.storage,
-            (&info.sender, &denom, timestamp.nanos()),
-            &Bond {
-                asset: asset.clone(),
+        // record the unbonding. The key is (address, denom, block time): if the address already unbonded
+        // this denom in the same block, add to that record instead of overwriting it
+        let unbonding_key = (&info.sender, denom.as_str(), timestamp.nanos());
+        let mut unbonding = UNBOND
+            .may_load(deps.storage, unbonding_key)?
+            .unwrap_or(Bond {
+                asset: Asset {
+                    amount: Uint128::zero(),
+                    ..asset.clone()
+                },
                 weight: Uint128::zero(),
                 timestamp,
-            },
-        )?;
+            });
+        unbonding.asset.amount = unbonding.asset.amount.checked_add(asset.amount)?;
+        UNBOND.save(deps.storage, unbonding_key, &unbonding)?;
 
         // update global values
         let mut global_index = GLOBAL.may_load(deps.storage)?.unwrap_or_default();
